@@ -166,7 +166,11 @@ def handleRt (args impl : List String) : String :=
          if e1 ≤ 1e-6 ∧ e2 ≤ 1e-6 then "OK nt=1 cls=inside_at_horizon" else s!"VIOL clause=ge.roundtrip_geo{tag} why=near-horizon")
       else if !(Float.abs (lat' - lat) ≤ 1e-9 ∧ (angDiff lon' lon ≤ 1e-9 ∨ Float.abs lat > 89.9999)) then
         s!"VIOL clause=ge.roundtrip_geo{tag} dlat={lat' - lat} dlon={angDiff lon' lon}"
-      else if !(near 1e-6 1e-6 x x' ∧ near 1e-6 1e-6 y y') then s!"VIOL clause=ge.roundtrip_plane{tag}"
+      else if !(Float.abs (x - x') ≤ 1e-6 * Float.sqrt (x * x + y * y) + 1e-6 ∧
+                Float.abs (y - y') ≤ 1e-6 * Float.sqrt (x * x + y * y) + 1e-6) then
+        -- (1e-6 relative to the point's distance from the origin of the plane: a coordinate that is
+        -- exactly zero — a point due east of the centre — has no relative error of its own)
+        s!"VIOL clause=ge.roundtrip_plane{tag}"
       else "OK nt=1"
     else "SKIP reason=on_horizon"
   | _, _ => "BAD"
